@@ -580,6 +580,136 @@ theorem setKex_wf {info : Info} {s s' : Side} {x : List Name} (hw : s.wf info = 
     exact ⟨⟨⟨⟨fun a ha => by simpa using hx' a ha, by simpa using w2⟩, by simpa using w3⟩,
       by simpa using w4⟩, by simpa using w5⟩
 
+/-! ## SecurityOptions assignments, including the ones that raise -/
+
+/-- `ValueError` is raised exactly when the tuple holds a name outside the category's table, and a
+    raising assignment leaves the transport exactly as it was (no half-updated state). -/
+theorem setPref_raise (info : Info) (s : Side) (c : Cat) (x : List Name) :
+    ((setPref info s c x).2 = true ↔ ∃ n ∈ x, n ∉ info.table c) ∧
+    ((setPref info s c x).2 = true → (setPref info s c x).1 = s) := by
+  unfold setPref
+  by_cases h : (x.filter fun n => !(info.table c).contains n).length > 0
+  · simp only [h, if_true, true_iff, forall_const, and_true]
+    have hne : (x.filter fun n => !(info.table c).contains n) ≠ [] := by
+      intro he; rw [he] at h; simp at h
+    obtain ⟨n, hn⟩ := List.exists_mem_of_ne_nil _ hne
+    have := List.mem_filter.mp hn
+    exact ⟨n, this.1, by simpa using this.2⟩
+  · simp only [h, if_false, Bool.false_eq_true, false_iff, false_imp_iff, and_true]
+    rintro ⟨n, hn, hnt⟩
+    apply h
+    have : n ∈ x.filter fun n => !(info.table c).contains n := List.mem_filter.mpr ⟨hn, by simpa using hnt⟩
+    exact List.length_pos_of_mem this
+
+/-- A successful assignment stores the tuple in its category and nowhere else. -/
+theorem setPref_ok (info : Info) (s : Side) (c : Cat) (x : List Name)
+    (h : (setPref info s c x).2 = false) :
+    (setPref info s c x).1 = s.withPref c x ∧ (∀ n ∈ x, n ∈ info.table c) := by
+  unfold setPref at h ⊢
+  by_cases hc : (x.filter fun n => !(info.table c).contains n).length > 0
+  · rw [if_pos hc] at h; simp at h
+  · rw [if_neg hc]
+    refine ⟨rfl, ?_⟩
+    intro n hn
+    apply Classical.byContradiction
+    intro hm
+    apply hc
+    have : n ∈ x.filter fun n => !(info.table c).contains n := List.mem_filter.mpr ⟨hn, by simpa using hm⟩
+    exact List.length_pos_of_mem this
+
+/-- Every assignment — accepted or refused — keeps the invariant "preference lists only hold names
+    of the tables". -/
+theorem setPref_wf {info : Info} {s : Side} (hw : s.wf info = true) (c : Cat) (x : List Name) :
+    (setPref info s c x).1.wf info = true := by
+  cases hr : (setPref info s c x).2
+  · obtain ⟨h1, h2⟩ := setPref_ok info s c x hr
+    rw [h1]
+    obtain ⟨w1, w2, w3, w4, w5⟩ := wf_parts hw
+    have w2' : ∀ n ∈ s.prefKeys, n ∈ info.keys := all_mem w2
+    cases c <;>
+      simp only [Side.wf, Side.withPref, Bool.and_eq_true, List.all_eq_true, Info.table] at h2 ⊢ <;>
+      exact ⟨⟨⟨⟨fun a ha => by simpa using (by first | exact h2 a ha | exact w1 a ha),
+        fun a ha => by simpa using (by first | exact h2 a ha | exact w2' a ha)⟩,
+        fun a ha => by simpa using (by first | exact h2 a ha | exact w3 a ha)⟩,
+        fun a ha => by simpa using (by first | exact h2 a ha | exact w4 a ha)⟩,
+        fun a ha => by simpa using (by first | exact h2 a ha | exact w5 a ha)⟩
+  · rw [(setPref_raise info s c x).2 hr]; exact hw
+
+/-- **All histories of assignments**: whatever sequence of `SecurityOptions` assignments an
+    application performs (any categories, any tuples, any number refused and caught), the
+    transport stays well-formed — so every theorem of this file applies to it. -/
+theorem wf_after_setters {info : Info} (ops : List (Cat × List Name)) {s : Side} (hw : s.wf info = true) :
+    (applySetters info s ops).wf info = true := by
+  induction ops generalizing s with
+  | nil => exact hw
+  | cons op rest ih => exact ih (setPref_wf hw op.1 op.2)
+
+/-- the model's kex setter used inside `_send_kex_init` is the same `_set` -/
+theorem setKex_eq_setPref (info : Info) (s : Side) (x : List Name) :
+    setKex info s x = if (setPref info s .kex x).2 then .error .valueError else .ok (setPref info s .kex x).1 := by
+  unfold setKex setPref
+  by_cases h : (x.filter fun n => !info.kex.contains n).length > 0
+  · have h' : (x.filter fun n => !(info.table .kex).contains n).length > 0 := h
+    rw [if_pos h, if_pos h']; rfl
+  · have h' : ¬ (x.filter fun n => !(info.table .kex).contains n).length > 0 := h
+    rw [if_neg h, if_neg h']; rfl
+
+/-- a name of category `c`'s table (host keys: or the cert variant of one) -/
+def inTable (info : Info) (c : Cat) (a : Name) : Prop :=
+  a ∈ info.table c ∨ (c = .keys ∧ ∃ b ∈ info.keys, a = cert b)
+
+/-- **Only table names are ever agreed on.**  For a well-formed transport and any peer KEXINIT,
+    every agreed algorithm is a name of the corresponding `*_info` table — in particular never a
+    name whose assignment `SecurityOptions` refused, whatever the peer advertises. -/
+theorem agreed_in_tables {info : Info} {s s' : Side} {p : KexInit} {seqno : Nat} {a : Agreed}
+    (hw : s.wf info = true) (h : parseKexInit info s p seqno = .ok (s', a)) :
+    inTable info .kex a.kex ∧ inTable info .keys a.hostKey ∧
+    inTable info .ciphers a.localCipher ∧ inTable info .ciphers a.remoteCipher ∧
+    inTable info .macs a.localMac ∧ inTable info .macs a.remoteMac ∧
+    inTable info .compression a.localComp ∧ inTable info .compression a.remoteComp := by
+  obtain ⟨s0, ext, e0, e1, e2, e3, e4, e5, hn⟩ := parse_ok h
+  obtain ⟨n1, n2, n3, n4, n5, n6, n7, n8⟩ := negotiate_ok hn
+  rw [e1] at n1; rw [e2] at n2; rw [e3] at n3 n4; rw [e4] at n5 n6; rw [e5] at n7 n8
+  obtain ⟨w1, w2, w3, w4, w5⟩ := wf_parts hw
+  refine ⟨Or.inl (w1 _ (mem_filterAlg.mp (fc_some n1).1).1), ?_,
+    Or.inl (w3 _ (mem_filterAlg.mp (fc_some n3).1).1), Or.inl (w3 _ (mem_filterAlg.mp (fc_some n4).1).1),
+    Or.inl (w4 _ (mem_filterAlg.mp (fc_some n5).1).1), Or.inl (w4 _ (mem_filterAlg.mp (fc_some n6).1).1),
+    Or.inl (w5 _ (mem_filterAlg.mp (fc_some n7).1).1), Or.inl (w5 _ (mem_filterAlg.mp (fc_some n8).1).1)⟩
+  have hk := (fc_some n2).1
+  have hpk : a.hostKey ∈ s.preferredKeys := by
+    unfold ownKeys at hk
+    split at hk
+    · exact (availableServerKeys_sub hk).1
+    · exact hk
+  rcases preferredKeys_sub w2 hpk with h | ⟨b, hb, hab⟩
+  · exact Or.inl h
+  · exact Or.inr ⟨rfl, b, hb, hab⟩
+
+/-- **Only table names are ever advertised** (plus the two markers in the kex list). -/
+theorem advertised_in_tables {info : Info} {s s1 : Side} {k : KexInit}
+    (hi : infoOK info = true) (hw : s.wf info = true) (h : sendKexInit info s = .ok (s1, k)) :
+    (∀ a ∈ stripMarkers k.kex, inTable info .kex a) ∧ (∀ a ∈ k.keys, inTable info .keys a) ∧
+    (∀ a ∈ k.cEnc, inTable info .ciphers a) ∧ (∀ a ∈ k.sEnc, inTable info .ciphers a) ∧
+    (∀ a ∈ k.cMac, inTable info .macs a) ∧ (∀ a ∈ k.sMac, inTable info .macs a) ∧
+    (∀ a ∈ k.cComp, inTable info .compression a) ∧ (∀ a ∈ k.sComp, inTable info .compression a) := by
+  have hw1 := wf_send hw h
+  obtain ⟨a1, a2, a3, a4, a5, a6, a7, a8⟩ := advertised_eq_accepted hi hw h
+  obtain ⟨w1, w2, w3, w4, w5⟩ := wf_parts hw1
+  rw [a1, a2, a3, a4, a5, a6, a7, a8]
+  refine ⟨fun a ha => Or.inl (w1 _ (mem_filterAlg.mp ha).1), ?_,
+    fun a ha => Or.inl (w3 _ (mem_filterAlg.mp ha).1), fun a ha => Or.inl (w3 _ (mem_filterAlg.mp ha).1),
+    fun a ha => Or.inl (w4 _ (mem_filterAlg.mp ha).1), fun a ha => Or.inl (w4 _ (mem_filterAlg.mp ha).1),
+    fun a ha => Or.inl (w5 _ (mem_filterAlg.mp ha).1), fun a ha => Or.inl (w5 _ (mem_filterAlg.mp ha).1)⟩
+  intro a ha
+  have hpk : a ∈ s1.preferredKeys := by
+    unfold ownKeys at ha
+    split at ha
+    · exact (availableServerKeys_sub ha).1
+    · exact ha
+  rcases preferredKeys_sub w2 hpk with h | ⟨b, hb, rfl⟩
+  · exact Or.inl h
+  · exact Or.inr ⟨rfl, b, hb, rfl⟩
+
 /-! ## the tables of the source (regenerated on every run) -/
 
 /-- every name of `_kex_info`, `_key_info` (and its cert variant), `_cipher_info`, `_mac_info`,
